@@ -1,5 +1,6 @@
 (* Extraction of the executable models to OCaml (ExtrOcamlBasic only; N, positive, nat stay inductive). *)
 Require Extraction.
 Require Import ExtrOcamlBasic.
-From LLB Require Import Base.Bytes Path.PathPrefix.
-Extraction "extracted/Model.ml" pip pip_unrepaired to_delete stale_history.
+From LLB Require Import Base.Bytes Path.PathPrefix Codec.Codec.
+Extraction "extracted/Model.ml" pip pip_unrepaired to_delete stale_history
+  enc_value dec_value enc_key dec_key has_sig has_info has_strs.
